@@ -395,6 +395,11 @@ func runPoolWorkload(r *gen.R, c poolCfg, emit func(string)) {
 				atomic.LoadInt64(&qeExpired) < atomic.LoadInt64(&qeCreated)) && time.Now().Before(deadline) {
 				time.Sleep(200 * time.Microsecond)
 			}
+			if !time.Now().Before(deadline) {
+				// accepted work did not run within ten seconds: the quiescent note below makes that a
+				// verdict; further workloads would each wait as long and add nothing
+				defer atomic.StoreInt32(&poolHung, 1)
+			}
 			rec.add("h.quiescent", "", int(atomic.LoadInt64(&submitted)))
 		}
 		rec.add("h.shutdown.begin", "", 0)
